@@ -43,6 +43,11 @@ B_EXACT = {
 }
 
 
+def passthrough(nm):
+    """harness-level uninterpreted functions keep their (sort-mapped) declaration in every mode"""
+    return nm in ('in_f64', 'in_u64', 'marker', 'out_f64') or nm.startswith('h_')
+
+
 def BV(n):
     return ['_', 'BitVec', str(n)]
 
@@ -395,7 +400,7 @@ class Interp:
                 if bvw(sa) is not None or bvw(sb_) is not None:
                     return [h, self.bvarg(t[1], env), self.bvarg(t[2], env)]
             return [h, self.term(t[1], env), self.term(t[2], env)]
-        if h.startswith(UFPFX) and h[len(UFPFX):] not in ('in_f64', 'in_u64', 'marker', 'out_f64'):
+        if h.startswith(UFPFX) and not passthrough(h[len(UFPFX):]):
             return self.libm(h[len(UFPFX):], t, env)
         return [h] + [self.term(y, env) for y in t[1:]]
 
@@ -434,7 +439,7 @@ class Interp:
             if h == 'fp.isNaN':
                 return ['=', a[0], 'r_nan']
             if h == 'fp.isInfinite':
-                return ['or', ['=', a[0], 'r_inf'], ['=', a[0], ['-', 'r_inf']]]
+                return ['and', ['or', ['>=', a[0], 'r_inf'], ['<=', a[0], ['-', 'r_inf']]], ['not', ['=', a[0], 'r_nan']]]
             if h == 'fp.isSubnormal':
                 return 'false'
             if h == 'fp.isNormal':
@@ -569,8 +574,11 @@ class Interp:
             self.pending = []
             lines = [res]
             if self.mode == 'R':
-                lines += ['(declare-fun r_inf () Real)', '(assert (> r_inf 1.0e308))'.replace('1.0e308', '1' + '0' * 308 + '.0'),
-                          '(declare-fun r_nan () Real)']
+                # +inf is the first real that rounds to infinity; NaN is one fixed real far outside the
+                # f64 range (a derived value can only collide with it through overflow-scale magnitudes,
+                # which costs a spurious sat -> undecided, never a spurious unsat)
+                lines += [f'(define-fun r_inf () Real {2 ** 1024}.0)',
+                          f'(define-fun r_nan () Real (/ {3 * 2 ** 1100 + 1}.0 3.0))']
             return lines
         if k in ('get-value', 'check-sat', 'exit', 'get-model', 'set-info'):
             return []
@@ -585,7 +593,7 @@ class Interp:
                 self.funargs[name] = args
                 if name.startswith(UFPFX) and self.mode != 'U':
                     nm = name[len(UFPFX):]
-                    if self.mode == 'R' and nm not in ('in_f64', 'in_u64', 'marker', 'out_f64'):
+                    if self.mode == 'R' and not passthrough(nm):
                         return []  # replaced by r.<name> / exact definitions
                     if self.mode == 'B' and (nm in B_EXACT or nm in ('fmin', 'fmax')):
                         return []
